@@ -1,5 +1,5 @@
 (* C06 - outbound QoS 1/2 publishes follow the MQTT handshake and report its outcome. *)
-From Poster Require Import Model.Client Proofs.ClientP Proofs.HandshakeP.
+From Poster Require Import Model.Sim Proofs.ClientP Proofs.HandshakeP Proofs.QuotaP Proofs.ResumeP Proofs.WireP Proofs.SimInvP Proofs.SettleP Proofs.RefineP.
 
 (* the first poll of publish(): one request reaches the context, carrying a PUBLISH whose first
    byte is 0x30 | qos<<1 | retain (DUP = 0), fire-and-forget for QoS 0, awaiting PUBACK (type 4)
@@ -59,3 +59,83 @@ Theorem C06_qos2_pubcomp : forall (s : sys) (i : N) (o : op) (p : rxpkt),
   snd (poll_wait2 s i o) = [ODone i (if 128 <=? r_reason p then RErrPubcomp p else ROk)].
 Proof. exact publish_qos2_done. Qed.
 Print Assumptions C06_qos2_pubcomp.
+
+(* ---- over every history of Context steps --------------------------------------------------------------------------------
+   WireP.refused s m : the request is larger than the server's Maximum Packet Size, or it is a QoS>0 PUBLISH and the
+   send quota is 0 - the two local refusals the property names. WireP.spec_wire: every request's packet that is not
+   refused, unchanged, and for every inbound packet the acknowledgement it is due (ClientP.ack_due = C08_ack_for), in
+   the order the Context took them. With a healthy writer the wire after ANY sequence of requests and inbound packets,
+   from ANY state, is exactly that: one PUBLISH per accepted publish() (never a second copy, never an altered one, DUP
+   as built by the future: 0), one PUBREL per PUBREL request, nothing for a refused request, nothing else. *)
+Theorem C06_wire_history : forall (evs : list qev) (s : sys), wbudget s = None ->
+  wire_ev (run_q s evs) = wire_ev s ++ spec_wire s evs.
+Proof. exact wire_history. Qed.
+Print Assumptions C06_wire_history.
+Check (eq_refl : refused = fun s m =>
+  negb (size_ok (c s) (msg_pkt m)) ||
+  match m with MAwait _ _ _ pkt => (ptype_of pkt =? 3) && (quota (c s) =? 0) | _ => false end).
+Check (eq_refl : spec_wire = fix spec_wire (s : sys) (evs : list qev) : bytes :=
+  match evs with
+  | [] => []
+  | QMsg m :: r => (if refused s m then [] else msg_pkt m) ++ spec_wire (qstep s (QMsg m)) r
+  | QPkt p :: r => ack_due p ++ spec_wire (qstep s (QPkt p)) r
+  end).
+
+(* a refused request leaves the Context and the wire untouched and run() going *)
+Theorem C06_refused_untouched : forall (s : sys) (m : cmsg), refused s m = true ->
+  c (fst (handle_message s m)) = c s /\ wire_ev (fst (handle_message s m)) = wire_ev s /\ snd (handle_message s m) = Continue.
+Proof. exact refused_untouched. Qed.
+Print Assumptions C06_refused_untouched.
+
+(* quota 1: a QoS 0 publish, two QoS 2 publishes of which the second is refused, PUBREC, PUBREL request, an inbound
+   QoS 1 PUBLISH in between, PUBCOMP, then a QoS 1 publish that fits again *)
+Example C06_history_nonvacuous :
+  let s0 := set_c sys_init (mkctx [] [] [] [] 1 1 (Some 8) 0 None) in
+  let p0 := [48; 4; 0; 1; 116; 0] in let p1 := [52; 6; 0; 1; 116; 0; 1; 0] in let p2 := [52; 6; 0; 1; 116; 0; 2; 0] in
+  let big := [48; 7; 0; 1; 116; 0; 1; 2; 3] in let rel1 := [98; 2; 0; 1] in let p3 := [50; 6; 0; 1; 116; 0; 3; 0] in
+  spec_wire s0
+    [QMsg (MFire 0 p0); QMsg (MAwait 1 1 (aid 5 1) p1); QMsg (MAwait 2 1 (aid 5 2) p2); QMsg (MFire 3 big);
+     QPkt (mkrx KPubrec false false false 0 1 0 [] [] [] []); QMsg (MAwait 1 2 (aid 7 1) rel1);
+     QPkt (mkrx KPublish false false false 1 9 0 [] [116] [1] []);
+     QPkt (mkrx KPubcomp false false false 0 1 0 [] [] [] []); QMsg (MAwait 4 1 (aid 4 3) p3)]
+  = p0 ++ p1 ++ rel1 ++ [64; 2; 0; 9] ++ p3.
+Proof. vm_compute. reflexivity. Qed.
+
+(* ---- from the script layer down to the wire ---------------------------------------------------------------------------------
+   The run loop of the script layer (settle: the Context task polled until it rests) is a run of Context steps over a
+   history whose requests are exactly the queued ones, each once, in queue order (RefineP). With C06_first_poll (one
+   request per publish()) and C06_wire_history this is the property end to end: while run() keeps going and the writer
+   is healthy, what one poll of the Context task adds to the wire is spec_wire of a history containing every queued
+   request exactly once - one PUBLISH per accepted publish(), unchanged. *)
+Theorem C06_end_to_end : forall s : sys, FInv s -> SZs s -> cph s = CRunning -> hold s = false -> ctx_alive s = true ->
+  wbudget s = None -> cph (settle s) = CRunning ->
+  exists evs : list qev, msgs evs = msgq s /\ msgq (settle s) = [] /\
+    wire_ev (settle s) = wire_ev s ++ spec_wire s evs.
+Proof.
+  intros s HF Hs Hc Hh Ha Hb Hc'. destruct (settle_takes_all s HF Hs Hc Hh Ha Hc') as (evs & Hm & Hv & Hq).
+  exists evs. split; [exact Hm|]. split; [exact Hq|]. assert (Hw : wire_ev (settle s) = wire_ev (run_q s evs)) by (unfold view in Hv; congruence).
+  rewrite Hw. apply wire_history. exact Hb.
+Qed.
+Print Assumptions C06_end_to_end.
+Check (eq_refl : msgs = fun evs => flat_map (fun e => match e with QMsg m => [m] | QPkt _ => [] end) evs).
+
+
+(* a state that meets the hypotheses with a request in the queue: connected, run() going, a QoS 1 publish() polled for
+   the first time and the Context task not yet polled *)
+Example C06_end_to_end_nonvacuous :
+  let evs := [EConnect (Build_connect_opts [99] 0 None None None None None None None None [] 0 false false
+                          None None None None None None [] None None None None);
+              EDeliver [32; 3; 0; 0; 0]; ERun;
+              EStart 0 0 (OPub (Build_publish_opts 1 false (Some [116]) None None None None None None None []))] in
+  let s0 := final_state sys_init evs in let s := fst (poll_op s0 0) in
+  FInv s /\ SZs s /\ cph s = CRunning /\ hold s = false /\ ctx_alive s = true /\ wbudget s = None /\
+  cph (settle s) = CRunning /\ lenN (msgq s) = 1 /\ wire_ev (settle s) = [50; 6; 0; 1; 116; 0; 1; 0].
+Proof.
+  cbv zeta.
+  match goal with |- FInv (fst (poll_op ?x 0)) /\ _ => set (s0 := x) end.
+  assert (Hr : FInv s0 /\ SZs s0).
+  { apply reachable_settled; [repeat constructor; vm_compute; discriminate|apply FInv_init|apply SZs_init]. }
+  destruct Hr as [HF Hs]. pose proof (io_poll_op s0 0) as Hio. pose proof (f_equal (fun t => fst (fst t)) Hio) as H1. pose proof (f_equal (fun t => snd (fst t)) Hio) as H2. cbn [io fst snd] in H1, H2.
+  split; [eapply FInv_io; [exact H1|exact H2|exact HF]|]. split; [unfold SZs; rewrite H2; exact Hs|].
+  vm_compute. repeat split; reflexivity.
+Qed.
